@@ -335,7 +335,7 @@ def check(repo, rep):
                         okidx, npt = True, 0
                         for ch_ in (2, 3, 4):
                             for sel_ in range(-ch_ - 1, ch_ + 1):
-                                a_ = {('p', 'selected'): sel_, ('p', 'channels'): ch_}
+                                a_ = {('p', 'selected'): sel_, ('p', 'channels'): ch_, ('p', 'sample_width'): 7}
                                 if not holds(l, evaluator(a_)):
                                     continue
                                 npt += 1
@@ -433,5 +433,5 @@ def check(repo, rep):
                        'normalised by rewrite rules (c*log10(sqrt(u)) = (c/2)*log10(u); clip inside/outside the sqrt) to coefficient 10 on log10(mean square over the last axis) with floor -200 dB obtained by '
                        'constant-folding c*log10(EPSILON); aggregation = np.max exactly for None/"any" and the same name set as the selector; decoding = frombuffer with the table {1:int8, 2:int16, 4:int32}, '
                        'unknown width -> ValueError, reshape(channels, -1, order="F"); selector dispatch: mono/None/"any" -> all channels, integer -> that row with ValueError exactly outside [-channels, channels) '
-                       '(region comparison by linear entailment), mix/avg/average -> mean(axis=0), anything else ValueError. NOT decided: numpy numerics; little-endian decoding is the platform\'s native order.')
+                       '(region comparison by linear entailment), mix/avg/average -> mean(axis=0), anything else ValueError. The accepted index region, the selected row and the name dispatch (None/any -> all, mix/avg/average -> mean, other names -> ValueError) are decided by taking sample values through the path conditions. NOT decided: numpy numerics; little-endian decoding is the platform\'s native order.')
     rep.assumptions = ['numpy functions have their documented semantics; the platform is little-endian (np.int16 is native order)']
